@@ -37,6 +37,9 @@ type feeGen struct {
 	rc *rec.Recorder
 	r  *rand.Rand
 	mc *miner.Chain
+	// balance of the miner contract's address when the current block was begun (fees collected so far =
+	// current balance - blockBal: nothing else pays into the address in a fee block)
+	blockBal uint64
 }
 
 type nodeView struct {
@@ -145,14 +148,13 @@ func (g *feeGen) history(a common.Args, id int) {
 
 	for blk := 0; blk < a.Steps; blk++ {
 		b := w.BeginBlock()
+		g.blockBal = w.Balance(world.Contracts["minersc"])
 		gen := ms[g.r.Intn(len(ms))]
 		b.MinerID = gen.Key.ID
 		// fee-paying transactions of this block
 		nt := g.r.Intn(4)
 		for i := 0; i < nt; i++ {
-			from := w.Clients[g.r.Intn(3)]
-			fee := []uint64{0, 1, 2, 3, 7, 10, 99, 100, 1234}[g.r.Intn(9)]
-			w.DoRec(g.rc, world.TxnSpec{From: from, To: w.Clients[3].ID, Type: transaction.TxnTypeSend, Value: uint64(1 + g.r.Intn(5)), Fee: fee}, rec.M{"src": "fees"})
+			g.feeTxn(ms)
 		}
 		// payFees attempts; the block's own one comes last
 		paid := 0
@@ -181,6 +183,63 @@ func (g *feeGen) history(a common.Args, id int) {
 		g.validate(paid)
 		w.EndBlock()
 	}
+}
+
+// feeKinds are the classes of transactions that carry a fee into a block: the fee of EVERY transaction of
+// the block - whatever its type, whether its contract call succeeded, and whether its function is on the
+// chain's fee-exempt list (exemption waives the MINIMUM fee only; a fee that is offered is charged by
+// Chain.updateState like any other) - is moved to the miner contract and has to be distributed by payFees.
+var feeKinds = []string{"send", "send", "data", "scok", "scfail", "exempt", "exemptdkg"}
+
+// feeTxn executes one fee-carrying transaction of a random kind in the current block and records the
+// `FeeTxn` observation (kind, outcome, fee offered, fee that actually arrived at the miner contract).
+func (g *feeGen) feeTxn(ms []*prov) {
+	w := g.w
+	from := w.Clients[g.r.Intn(3)]
+	fee := []uint64{0, 1, 2, 3, 7, 10, 99, 100, 1234}[g.r.Intn(9)]
+	kind := feeKinds[g.r.Intn(len(feeKinds))]
+	sc := func(who *world.Key, scn, fn string, in interface{}, v uint64) world.TxnSpec {
+		return world.TxnSpec{From: who, To: world.Contracts[scn], Type: transaction.TxnTypeSmartContract, Fn: fn, Input: in, Value: v, Fee: fee}
+	}
+	var ts world.TxnSpec
+	switch kind {
+	case "send":
+		ts = world.TxnSpec{From: from, To: w.Clients[3].ID, Type: transaction.TxnTypeSend, Value: uint64(1 + g.r.Intn(5)), Fee: fee}
+	case "data":
+		ts = world.TxnSpec{From: from, To: w.Clients[3].ID, Type: transaction.TxnTypeData, Raw: []byte("fee-carrying data"), Fee: fee}
+	case "scok": // a contract call that succeeds (not exempt)
+		ts = sc(from, "faucetsc", "refill", nil, uint64(1+g.r.Intn(5)))
+	case "scfail": // a contract call that fails: its state changes are dropped, its fee is charged
+		ts = sc(from, "storagesc", "no_such_function", nil, 0)
+	case "exempt": // a fee-exempt function (no minimum fee) that nevertheless offers a fee
+		ts = sc(from, "faucetsc", "pour", nil, 0)
+	case "exemptdkg": // a fee-exempt DKG function sent by a miner, with a fee
+		fn := []string{"contributeMpk", "shareSignsOrShares", "wait"}[g.r.Intn(3)]
+		ts = sc(ms[g.r.Intn(len(ms))].Key, "minersc", fn, nil, 0)
+	}
+	exempt := false
+	if ts.Type == transaction.TxnTypeSmartContract {
+		exempt = w.Chain.ChainConfig.TxnExempt()[ts.Fn]
+	}
+	wb := w.Balance(world.Contracts["minersc"])
+	res := w.DoRec(g.rc, ts, rec.M{"src": "fees"})
+	arrived := diffU(w.Balance(world.Contracts["minersc"]), wb)
+	if ts.To == world.Contracts["minersc"] && res.Class == "ok" {
+		arrived -= capU(ts.Value)
+	}
+	g.rc.Emit(rec.M{"ev": "FeeTxn", "kind": kind, "class": res.Class, "exempt": exempt, "fee": capU(fee), "arrived": arrived,
+		"in_block": res.Class != "rejected"}, kind+"/"+res.Class+"/"+feeShape(fee, exempt), res.Class != "rejected" && fee > 0)
+}
+
+func feeShape(fee uint64, exempt bool) string {
+	s := "fee=0"
+	if fee > 0 {
+		s = "fee>0"
+	}
+	if exempt {
+		s += "/exempt"
+	}
+	return s
 }
 
 func (g *feeGen) attempts() []string {
@@ -246,7 +305,7 @@ func (g *feeGen) payFees(gen *prov, who *world.Key, kind string, round int64, pa
 	}
 	m := rec.M{
 		"ev": "Fees", "caller": w.Name(who.ID), "gen": gen.Name, "kind": kind, "is_gen": who.ID == b.MinerID, "round_ok": round == b.Round,
-		"ok": res.Class == "ok", "class": res.Class, "fees": capU(fees), "reward": capU(reward),
+		"ok": res.Class == "ok", "class": res.Class, "fees": capU(fees), "collected": diffU(wb, g.blockBal), "reward": capU(reward),
 		"ratio_num": int64(gn.ShareRatio*10000 + 0.5), "ratio_den": 10000, "nsh": gn.NumShardersRewarded,
 		"minc": orEmpty(minc), "sinc": orEmpty(sinc), "payable": orEmpty(payable), "all_payable": allPayable,
 		"second": paidBefore > 0, "wallet_delta": diffU(w.Balance(world.Contracts["minersc"]), wb), "panic": res.Panic != "",
